@@ -617,11 +617,29 @@ def sym_sqrt(x):
     return math.sqrt(x)
 
 
+def log_term(xe):
+    """ln(x) for a real term: Ackermannised uninterpreted function.  Each
+    syntactically distinct argument gets a fresh real; congruence with every
+    earlier argument is added to the path condition (arg_i = arg_j ->
+    val_i = val_j), which keeps obligations in pure nonlinear real arithmetic
+    (nlsat does not take uninterpreted functions)."""
+    c = ctx()
+    xe = z3.simplify(xe)
+    for (a, v) in c.logs:
+        if a.eq(xe):
+            return v
+    v = c.fresh_real('ln')
+    for (a, w) in c.logs:
+        c.assume(z3.Implies(a == xe, w == v))
+    c.logs.append((xe, v))
+    return v
+
+
 def sym_log(x):
     if isinstance(x, SymFP):
         raise Unsupported("log in FP64 mode")
     if isinstance(x, (SymInt, SymReal)):
-        return SymReal(LOG(as_real(x)))
+        return SymReal(log_term(as_real(x)))
     return math.log(x)
 
 
@@ -694,8 +712,8 @@ class Stats:
             setattr(self, k, getattr(self, k) + getattr(o, k))
         self.solver_time += o.solver_time
         for k, v in o.by_name.items():
-            d = self.by_name.setdefault(k, [0, 0, 0, 0])
-            for i in range(4):
+            d = self.by_name.setdefault(k, [0, 0, 0, 0, 0.0])
+            for i in range(len(v)):
                 d[i] += v[i]
 
     def as_dict(self):
@@ -703,7 +721,8 @@ class Stats:
             'paths', 'decisions', 'forced', 'concretizations', 'solver_calls',
             'obligations', 'discharged', 'inconclusive', 'violated', 'cut')}
         d['solver_time_s'] = round(self.solver_time, 3)
-        d['by_obligation'] = {k: {'checked': v[0], 'unsat': v[1], 'sat': v[2], 'unknown': v[3]}
+        d['by_obligation'] = {k: {'checked': v[0], 'unsat': v[1], 'sat': v[2], 'unknown': v[3],
+                                  'solver_time_s': round(v[4], 2) if len(v) > 4 else 0}
                               for k, v in sorted(self.by_name.items())}
         return d
 
@@ -776,6 +795,47 @@ def term_vars(e):
     return r
 
 
+DELTA = z3.Q(1, 1000)
+
+
+def strengthen(f, pos=True):
+    """A formula implying f (pos) / implying Not(f) (not pos) in which every
+    real comparison holds with a margin, so that a model survives binary64
+    rounding and approximated constants on the real build."""
+    k = f.decl().kind() if z3.is_app(f) else None
+    ch = f.children() if z3.is_app(f) else []
+    if k == z3.Z3_OP_NOT:
+        return strengthen(ch[0], not pos)
+    if k == z3.Z3_OP_AND:
+        parts = [strengthen(x, pos) for x in ch]
+        return z3.And(*parts) if pos else z3.Or(*parts)
+    if k == z3.Z3_OP_OR:
+        parts = [strengthen(x, pos) for x in ch]
+        return z3.Or(*parts) if pos else z3.And(*parts)
+    if k == z3.Z3_OP_IMPLIES:
+        return strengthen(z3.Or(z3.Not(ch[0]), ch[1]), pos)
+    if k in (z3.Z3_OP_LT, z3.Z3_OP_LE, z3.Z3_OP_GT, z3.Z3_OP_GE) and ch[0].sort() == z3.RealSort():
+        a, b = ch
+        if k in (z3.Z3_OP_GT, z3.Z3_OP_GE):
+            a, b = b, a           # now: a < b or a <= b
+        if pos:
+            return a + DELTA <= b
+        return a >= b + DELTA
+    if k == z3.Z3_OP_EQ and ch[0].sort() != z3.RealSort() and not z3.is_bool(ch[0]):
+        # integer-valued If-terms hide real comparisons (merged argmin)
+        for i in (0, 1):
+            t, o = ch[i], ch[1 - i]
+            if z3.is_app(t) and t.decl().kind() == z3.Z3_OP_ITE:
+                c0, x, y = t.children()
+                e = z3.Or(z3.And(strengthen(c0, True), strengthen(x == o, True)),
+                          z3.And(strengthen(c0, False), strengthen(y == o, True)))
+                return e if pos else z3.Not(f)
+        return f if pos else z3.Not(f)
+    if k == z3.Z3_OP_DISTINCT and len(ch) == 2 and ch[0].sort() != z3.RealSort():
+        return strengthen(z3.Not(ch[0] == ch[1]), pos)
+    return f if pos else z3.Not(f)
+
+
 class MergedModel:
     """Model of a cone-of-influence query, completed with the path model for
     the variables outside the cone (disjoint variable sets)."""
@@ -797,12 +857,15 @@ class PathCtx:
         self.solver = z3.Solver()
         self.solver.set('timeout', explorer.branch_timeout_ms)
         self.pc = []                # assertions, for fresh-solver re-checks
+        self.decided = []           # the subset of pc that are branch/value decisions (not assumptions)
         self.model = None           # a model of the current path condition, if known
         self.nfresh = 0
         self.inputs = {}            # name -> z3 term (declared symbolic inputs)
         self.notes = {}             # concrete per-path facts for witnesses
         self.reached = set()        # obligation names reached on this path
         self.outputs = {}           # name -> term/py value (for witness validation)
+        self.logs = []              # (argument term, value term) of ln applications
+        self.norm_hints = []        # preferred extra constraints for witnesses / counterexamples
 
     # ---- declaring inputs
     def real(self, name, lo=None, hi=None, tag='float'):
@@ -859,6 +922,43 @@ class PathCtx:
         st.solver_calls += 1
         return r
 
+    def _solve(self, extra=()):
+        """Satisfiability of path condition + extra.  -> (result, model or None).
+
+        Linear mode: the incremental solver.  Nonlinear mode: a fresh
+        (tactic-selecting) solver on the cone of influence of ``extra``; the
+        returned model is completed with the current path model outside it."""
+        extra = list(extra)
+        if not self.ex.nonlinear:
+            r = self._check(*extra)
+            return r, (self.solver.model() if r == z3.sat else None)
+        st = self.ex.stats
+        if extra and self.model is not None:
+            probe = extra[0] if len(extra) == 1 else z3.And(*extra)
+            sel, vs = self._cone(probe)
+            base = self.model
+        else:
+            sel, vs, base = list(self.pc), None, None
+        res, mod = z3.unknown, None
+        for mk in (lambda: z3.Solver(), lambda: z3.Tactic('qfnra-nlsat').solver()):
+            try:
+                s = mk()
+                s.set('timeout', self.ex.branch_timeout_ms)
+                s.add(*sel)
+                s.add(*extra)
+                t0 = time.perf_counter()
+                r = s.check()
+                st.solver_time += time.perf_counter() - t0
+                st.solver_calls += 1
+            except z3.Z3Exception:
+                continue
+            if r == z3.sat:
+                m = s.model()
+                return r, (MergedModel(m, vs, base) if vs is not None else m)
+            if r == z3.unsat:
+                return r, None
+        return res, mod
+
     def assume(self, f):
         """Add a constraint (precondition or stub contract) to the path condition."""
         if isinstance(f, bool):
@@ -877,19 +977,24 @@ class PathCtx:
                 self.model = None
 
     def feasible(self):
-        r = self._check()
+        r, m = self._solve()
         if r == z3.sat:
-            self.model = self.solver.model()
+            self.model = m
         return r != z3.unsat
 
     def _ensure_model(self):
         if self.model is None:
-            r = self._check()
+            r, m = self._solve()
             if r == z3.sat:
-                self.model = self.solver.model()
+                self.model = m
             elif r == z3.unsat:
                 raise PathAbort()
         return self.model
+
+    def _push(self, c):
+        self.solver.add(c)
+        self.pc.append(c)
+        self.decided.append(c)
 
     def decide(self, cond):
         cond = z3.simplify(cond)
@@ -903,9 +1008,7 @@ class PathCtx:
         if i < len(self.trail):
             ent = self.trail[i]
             v = ent[0]
-            c = cond if v else z3.Not(cond)
-            self.solver.add(c)
-            self.pc.append(c)
+            self._push(cond if v else z3.Not(cond))
             if i == len(self.trail) - 1:
                 self.model = ent[1]
             st.forced += 1
@@ -923,23 +1026,19 @@ class PathCtx:
                 mv = None
         ncond = z3.Not(cond)
         if mv is None:
-            rt = self._check(cond)
-            mt = self.solver.model() if rt == z3.sat else None
-            rf = self._check(ncond)
-            mf = self.solver.model() if rf == z3.sat else None
+            rt, mt = self._solve([cond])
+            rf, mf = self._solve([ncond])
             t_ok, f_ok = rt != z3.unsat, rf != z3.unsat
             if not t_ok and not f_ok:
                 raise PathAbort()
         elif mv:
             t_ok, mt = True, m
-            rf = self._check(ncond)
+            rf, mf = self._solve([ncond])
             f_ok = rf != z3.unsat
-            mf = self.solver.model() if rf == z3.sat else None
         else:
             f_ok, mf = True, m
-            rt = self._check(cond)
+            rt, mt = self._solve([cond])
             t_ok = rt != z3.unsat
-            mt = self.solver.model() if rt == z3.sat else None
         if t_ok:
             take, tm = True, mt
             alts = [(False, mf)] if f_ok else []
@@ -947,9 +1046,7 @@ class PathCtx:
             take, tm = False, mf
             alts = []
         self.trail.append([take, tm, alts])
-        c = cond if take else ncond
-        self.solver.add(c)
-        self.pc.append(c)
+        self._push(cond if take else ncond)
         self.model = tm
         return take
 
@@ -963,9 +1060,7 @@ class PathCtx:
         if i < len(self.trail):
             ent = self.trail[i]
             v = ent[0]
-            c = (e == v)
-            self.solver.add(c)
-            self.pc.append(c)
+            self._push(e == v)
             if i == len(self.trail) - 1:
                 self.model = ent[1]
             st.forced += 1
@@ -974,50 +1069,54 @@ class PathCtx:
             raise PathCut()
         st.concretizations += 1
         vals = []
-        self.solver.push()
-        try:
-            first = True
-            while True:
-                if first and self.model is not None:
-                    m = self.model
-                    r = z3.sat
-                else:
-                    r = self._check()
-                    m = self.solver.model() if r == z3.sat else None
-                first = False
-                if r == z3.unknown:
-                    raise Unsupported("solver gave 'unknown' while enumerating values of %s" % (e,))
-                if r == z3.unsat:
-                    break
-                v = m.eval(e, model_completion=True).as_long()
-                vals.append((v, m))
-                self.solver.add(e != v)
-                if len(vals) > self.ex.max_fanout:
-                    raise Unsupported("more than %d feasible values for %s: add a bound" %
-                                      (self.ex.max_fanout, e))
-        finally:
-            self.solver.pop()
+        excl = []
+        first = True
+        while True:
+            if first and self.model is not None:
+                m, r = self.model, z3.sat
+            else:
+                r, m = self._solve(excl if excl else [z3.BoolVal(True)] if self.ex.nonlinear and False else excl)
+            first = False
+            if r == z3.unknown:
+                raise Unsupported("solver gave 'unknown' while enumerating values of %s" % (e,))
+            if r == z3.unsat:
+                break
+            v = m.eval(e, model_completion=True).as_long()
+            vals.append((v, m))
+            excl.append(e != v)
+            if len(vals) > self.ex.max_fanout:
+                raise Unsupported("more than %d feasible values for %s: add a bound" %
+                                  (self.ex.max_fanout, e))
         if not vals:
             raise PathAbort()
         vals.sort(key=lambda t: t[0])
         (v, m) = vals[0]
         self.trail.append([v, m, vals[1:]])
-        c = (e == v)
-        self.solver.add(c)
-        self.pc.append(c)
+        self._push(e == v)
         self.model = m
         return v
 
     # ---- obligations
     def prove(self, name, formula, detail=None, parts=None):
+        st = self.ex.stats
+        t0 = st.solver_time
+        try:
+            return self._prove(name, formula, detail, parts)
+        finally:
+            rec = st.by_name.get(name)
+            if rec is not None and len(rec) > 4:
+                rec[4] += st.solver_time - t0
+
+    def _prove(self, name, formula, detail=None, parts=None):
         """Discharge ``formula`` under the path condition.
 
         parts: optional dict label -> sub-formula, evaluated under a
         counterexample model to say which conjunct failed."""
         ex = self.ex
         st = ex.stats
-        rec = st.by_name.setdefault(name, [0, 0, 0, 0])
+        rec = st.by_name.setdefault(name, [0, 0, 0, 0, 0.0])
         self.reached.add(name)
+        _t_start = st.solver_time
         st.obligations += 1
         rec[0] += 1
         if isinstance(formula, SymBool):
@@ -1061,6 +1160,17 @@ class PathCtx:
                 ex.smt_dumps.append((name, self._smt2(neg)))
             return True
         if r == z3.sat:
+            if self.norm_hints or self.ex.robust:
+                extra = [neg] + list(self.norm_hints)
+                if self.ex.robust:
+                    extra += [strengthen(f) for f in self.decided] + [strengthen(neg)]
+                r2, m2 = self._solve(extra)
+                if r2 == z3.sat:
+                    m = m2
+                elif self.ex.robust and self.norm_hints:
+                    r2, m2 = self._solve([neg] + list(self.norm_hints))
+                    if r2 == z3.sat:
+                        m = m2
             self._record_cex(name, m, detail, parts)
             st.violated += 1
             rec[2] += 1
@@ -1181,7 +1291,7 @@ class Explorer:
     def __init__(self, config_name='', config_params=None, branch_timeout_ms=20000,
                  prove_timeout_ms=60000, max_fanout=64, max_paths=None,
                  max_cex=5, split_depth=None, prefix=None, dump_smt=0,
-                 witness_every=0, seed=0, nonlinear=False):
+                 witness_every=0, seed=0, nonlinear=False, robust=False):
         self.config_name = config_name
         self.config_params = config_params or {}
         self.branch_timeout_ms = branch_timeout_ms
@@ -1205,6 +1315,8 @@ class Explorer:
         self.truncated = False
         self.seed = seed
         self.nonlinear = nonlinear
+        self.robust = robust
+        self.witness_skipped = 0
 
     def run(self, fn):
         global _CTX
@@ -1273,7 +1385,17 @@ class Explorer:
         global _CTX
         _CTX = c
         try:
-            m = c._ensure_model()
+            m = None
+            if c.norm_hints or self.robust:
+                extra = list(c.norm_hints)
+                if self.robust:
+                    extra += [strengthen(f) for f in c.decided]
+                r, m = c._solve(extra)
+                if r != z3.sat:
+                    self.witness_skipped += 1
+                    return          # no replayable witness on this path
+            else:
+                m = c._ensure_model()
         except PathAbort:
             m = None
         finally:
